@@ -40,7 +40,8 @@ CHECKS["C12"] = dict(
     text="For 16 anchor combinations x all short literals x all short lines x 8 flags, TLC computes both the "
          "transcription of the literal fast path (SimpleFind) and the general reference; rstr_find and rset_find of "
          "the repository are compared with both and with each other, groups poisoned; the classifier is checked on "
-         "every short operator string.",
+         "every short operator string, and every operator-bearing pattern that the reference parser refuses must be refused by rstr_make too "
+         "(never searched as a literal piece).",
     design="8/C12", technique="TLA+ fast-path transcription vs general reference in TLC; rstr.c vs rset.c vs spec (M2)",
     note="Lines are newline-terminated as every caller guarantees; comparisons with a fired depth counter are discarded.")
 
@@ -165,7 +166,10 @@ CHECKS["C05"] = dict(
          "the ASan+UBSan traced binary under sampled windows (2x2 .. 50x132), initial files and EXINIT option settings; each must reach its "
          "quit command (complete trace, exit 0, no sanitizer report, time bound). The recorded states are validated by TLC against "
          "TraceInv.tla: valid UTF-8 lines, well-formed buffer table, undo cursor inside the log, cursor on an existing character and inside "
-         "the window at every vi command boundary.",
+         "the window at every vi command boundary. Exhaustive small-scope corpora run with them: every command of the ex command table x 15 arguments x "
+         "addresses (in ex mode and at the prompt of visual mode, in the unnamed buffer and in a named one with an alternate), every two-key "
+         "vi command (24 prefix keys x bytes 1..126), every option at ten extreme values followed by an exercise stream, autoindent sums around "
+         "the 128-byte buffer, the inputs of the repaired defects.",
     design="8/C05", technique="TLC-generated and mutated command streams on a sanitizer build; TLC trace validation of recorded states against TraceInv.tla",
     note="Sampled, not exhaustive: absence of memory errors is established for the executed streams only. Shell-outs run a stub filter; "
          "^Z is removed; work proportional to a typed count of 10^8 or more is inconclusive rather than a hang; signed arithmetic wraps "
